@@ -1000,8 +1000,16 @@ def shrink_candidates(case):
         if valid(c) and c != case and c not in out:
             out.append(c)
 
-    # big jump first
-    cand(S="static", V="c", F="lambda" if C in EXPR_CTX else "def")
+    # canonical guesses first (atom alone / context alone in the simplest program): they are shared by many
+    # violating programs, so the per-process memo of check_case answers most of them without executing anything
+    f0 = lambda c: "lambda" if c in EXPR_CTX else "def"
+    cand(S="static", C="direct", F="lambda", V="c")
+    if V != "c":
+        cand(S="static", C="direct", F="lambda")
+    for C2 in CTX_FAMILY.get(C, []) + [C]:
+        cand(S="static", C=C2, A="call", F=f0(C2), V="c")
+    # big jump
+    cand(S="static", V="c", F=f0(C))
     if V != "c":
         cand(V="c")
         if V in ("a", "s"):
@@ -1030,6 +1038,15 @@ def shrink_candidates(case):
 
 
 def script(case):
+    """Stand-alone reproduction (needs only modelx): build, export, import, print both values per query."""
+    text = _script(case, "c15pkg")
+    if case.get("V", "c") != "c":
+        text += ("\n\n# ---- the same program with every cells cached: clause cached==uncached compares the two packages\n"
+                 + _script(dict(case, V="c"), "c15pkg_cached"))
+    return text
+
+
+def _script(case, pkgname):
     desc = expand(case)
     qs = queries(desc)
     L = ["# C15 reproduction: %s" % json.dumps(case, sort_keys=True),
@@ -1048,8 +1065,7 @@ def script(case):
         if sp["params"]:
             args.append("formula=%r" % ("lambda %s: None" % sp["params"]))
         L.append("%s.new_space(%s)" % (parent, ", ".join(args)))
-    overrides = any(name in [c[0] for b in sp["bases"] for sb in desc["spaces"] if sb["path"] == b
-                             for c in sb["cells"]] for sp in desc["spaces"] for name, _, _ in sp["cells"])
+    overrides = any(sp["bases"] and sp["cells"] for sp in desc["spaces"])
     if overrides:
         L += ["def define(space, name, src, cached):",
               "    if name in space.cells:      # override an inherited cells",
@@ -1080,9 +1096,9 @@ def script(case):
                 L.append("m.%s.set_ref(%r, m.%s, %r)" % (sp["path"], r[0], r[2], r[3]))
     L += ["root = tempfile.mkdtemp()",
           "try:",
-          "    m.export(os.path.join(root, 'c15pkg'))",
+          "    m.export(os.path.join(root, %r))" % pkgname,
           "    sys.path.insert(0, root)",
-          "    nomx = importlib.import_module('c15pkg').mx_model     # raises if the package is broken",
+          "    nomx = importlib.import_module(%r).mx_model     # raises if the package is broken" % pkgname,
           "    def show(expr, obj):",
           "        try:",
           "            return repr(eval(expr, {'m': obj}))",
@@ -1111,8 +1127,9 @@ def coverage(agg, tier):
         "programs_enumerated": nprog,
         "rule": "programs = structure{%d} x context/form{%d} x atom{%d} x cached-flags{c,g,a,s} restricted to the "
                 "documented export subset (tier %s: see enumerate_cases); each exported, imported in a subprocess "
-                "with modelx blocked, every cells x args {0,1,2} (+ (1,2),(2,0) for defaults) x instances "
-                "{static,[1],(2),[1, 2],(2, j=2)} per parametrised level queried on both sides; evaluations = "
+                "with modelx blocked, every cells x args {0,1,2,(p=1)} (+ (1,2),(2,0),(1,y=2),(x=2) for a default "
+                "parameter) x instances {static,[1],(2),[1, 2],(2, j=2),(2, 1)} per parametrised level queried on "
+                "both sides; evaluations = "
                 "(program, query) pairs on which the model returned a value and the package was compared; "
                 "distinct_nontrivial = programs whose formula under test returned a value on the model through "
                 "another cells / reference / parameter (measured from the value tables)"
